@@ -22,6 +22,8 @@ THEOREMS = [
     "sym_full_iff",
     "sym_diag_iff",
     "flipSymmetric_iff_lookup",
+    "newDiagonalOffset_spec",
+    "newOffset_spec",
 ]
 
 RULE = ("every matrix length 0..70 x variable-list length 0..4 x 4 constructor variants with 0/1 and dyadic entries; "
